@@ -56,6 +56,8 @@ type host struct {
 	healthy      atomic.Bool
 	stage        atomic.Int64
 	maxLagUs     atomic.Int64
+	invIssued    atomic.Int64
+	invReturned  atomic.Int64
 	ridMu        sync.Mutex
 	ridHist      []string
 	identsGlobal map[string]string
@@ -453,6 +455,21 @@ func (a *actor) do(st *Step, idx int, call, method, path string, hdr map[string]
 	if body != nil {
 		rd = bytes.NewReader(body)
 	}
+	if st.SlowBody != "" && len(body) >= 2 {
+		// a slow (chunked) upload: first half now, second half once the latch is raised
+		pr, pw := io.Pipe()
+		rd = pr
+		go func() {
+			pw.Write(body[:len(body)/2])
+			select {
+			case <-a.h.latch(st.SlowBody):
+			case <-a.ctx.Done():
+			case <-time.After(8 * time.Second):
+			}
+			pw.Write(body[len(body)/2:])
+			pw.Close()
+		}()
+	}
 	done := make(chan struct{})
 	ctx := a.ctx
 	if st.SigIssued != "" {
@@ -717,10 +734,26 @@ func (a *actor) exec(st *Step, idx int) bool {
 		return true
 	case "sleep":
 		return a.sleep(st.Ms)
+	case "usleep":
+		return a.sleepUs(st.Ms) // Ms holds microseconds here
+	case "spin":
+		// busy-wait Ms microseconds (sub-scheduler-tick placement of an event)
+		t0 := time.Now()
+		for time.Since(t0) < time.Duration(st.Ms)*time.Microsecond {
+		}
+		return a.ctx.Err() == nil
 	case "signal":
 		a.h.signal(st.Name)
 		return true
 	case "await":
+		if st.Quiet {
+			select {
+			case <-a.h.latch(st.Name):
+			case <-a.ctx.Done():
+			case <-time.After(time.Duration(st.Ms) * time.Millisecond):
+			}
+			return a.ctx.Err() == nil
+		}
 		a.h.await(a.ctx, a.id, st.Name, time.Duration(st.Ms)*time.Millisecond)
 		return a.ctx.Err() == nil
 	case "join":
@@ -1035,6 +1068,8 @@ func (h *host) invoke(st *Step, idx int) {
 	}
 	s := kit.Summarise(body)
 	t0 := time.Now()
+	h.invIssued.Add(1)
+	defer h.invReturned.Add(1)
 	h.record(Event{Actor: "driver", Kind: "issue", Call: "invoke", Tag: st.Tag, Step: idx, Body: &s})
 	if st.SigIssued != "" {
 		h.signal(st.SigIssued)
@@ -1151,11 +1186,13 @@ func (h *host) driverOp(a *actor, st *Step, idx int) bool {
 		h.record(ev)
 	case "waitreserved":
 		// wait until the interop server holds a reservation (an invocation has really arrived)
+		// (or until every invocation issued so far has already been answered: it came and went)
 		dl := time.Now().Add(3 * time.Second)
-		for h.server.CurrentToken() == nil && time.Now().Before(dl) {
+		gone := func() bool { return h.invIssued.Load() > 0 && h.invIssued.Load() == h.invReturned.Load() }
+		for h.server.CurrentToken() == nil && !gone() && time.Now().Before(dl) {
 			time.Sleep(100 * time.Microsecond)
 		}
-		if h.server.CurrentToken() == nil {
+		if h.server.CurrentToken() == nil && !gone() {
 			h.note("driver", "waitreserved-timeout")
 		}
 	case "quiet":
